@@ -64,7 +64,9 @@ func literal(seg []byte) string {
 			continue
 		}
 		if c == '&' {
-			if j := bytes.IndexByte(seg[i:], ';'); j > 1 && j <= 33 {
+			// a character reference is '&' + name of letters and digits, or '#' digits, or '#x' hex digits + ';'
+			// (util.Resolve* rewrite every reference inside the slice they are given: hand them one candidate only)
+			if j := bytes.IndexByte(seg[i:], ';'); j > 1 && j <= 33 && referenceBody(seg[i+1:i+j]) {
 				ent := seg[i : i+j+1]
 				r := util.ResolveNumericReferences(ent)
 				if bytes.Equal(r, ent) {
@@ -81,6 +83,21 @@ func literal(seg []byte) string {
 		i++
 	}
 	return string(out)
+}
+
+func referenceBody(b []byte) bool {
+	if len(b) > 0 && b[0] == '#' {
+		b = b[1:]
+	}
+	if len(b) == 0 {
+		return false
+	}
+	for _, c := range b {
+		if !(c >= '0' && c <= '9' || c >= 'a' && c <= 'z' || c >= 'A' && c <= 'Z') {
+			return false
+		}
+	}
+	return true
 }
 
 func (w *inl) walk(n ast.Node, mask int) {
